@@ -203,7 +203,7 @@ def main(prop, cfg):
         thorough = C.TIER == "thorough"
         n_rand = int(os.environ.get("VERIF_SWEEP_DEFS", "600" if thorough else "150"))
         maxlen = 6 if thorough else 5
-        rdefs = [d for d in RD.make(1000 + C.SEED, n_rand) if prop in d["props"]]
+        rdefs = [dict(d, sweep_maxlen=5) for d in RD.make(1000 + C.SEED, n_rand) if prop in d["props"]]  # random definitions: length <= 5 in both tiers (the thorough tier has four times as many)
         cdefs = [d for d in D.by_prop(prop, "thorough") if d.get("form", "step") == "step" and not d.get("via")]
         try:
             srows = SW.run(cdefs + rdefs, prop.lower(), 6, 4, maxlen)
@@ -235,7 +235,7 @@ def main(prop, cfg):
             lines.append("VIOLATION property=%s replay=%s obligation=%s" % (prop, path, re.sub(r"\s+", "_", ob)[:200]))
             violations += 1
         sweep_cov = {"native_sweep": {"definitions": len(srows), "passed": s_ok, "step_contract_evaluations": s_cases, "random_definitions": len(rdefs), "seed": 1000 + C.SEED,
-                                      "bounds": "every string of length <= %d over the definition's alphabet (its first five literal characters / range end points, one unrelated character, newline); every rule set; "
+                                      "bounds": "every string of length <= %d (random definitions: <= 5) over the definition's alphabet (its first five literal characters / range end points, one unrelated character, newline); every rule set; "
                                                 "both values of the end-of-input flag; base location (3,5,17); calls handling more than 4 lexemes skipped" % maxlen,
                                       "kind": "bounded stand-in by execution of the real generated code against the generated reference (never counted as proved)"}}
         sweep_decided = s_ok
